@@ -234,6 +234,8 @@ class Check:
                     "distinct_outcomes": 0, "parts": {}}
         self.assumptions = []
         self._seen_known = set()
+        # replay files of earlier runs are stale (a run writes one file per violation it reports)
+        shutil.rmtree(os.path.join(OUT, "replays", prop, tier), ignore_errors=True)
 
     # -- bookkeeping helpers
     def add(self, **kw):
@@ -256,7 +258,7 @@ class Check:
                 self._seen_known.add((ck, ok))
                 self.known_hits.append((ck, ok, what, known))
             return False
-        d = os.path.join(OUT, "replays", self.prop)
+        d = os.path.join(OUT, "replays", self.prop, self.tier)
         os.makedirs(d, exist_ok=True)
         path = os.path.join(d, f"{ck}-{ok}.json")
         if not any(v["path"] == path for v in self.violations):
@@ -279,7 +281,7 @@ class Check:
         for v in self.violations[:200]:
             print(f"VIOLATION property={self.prop} replay={v['path']}  # {v['what'][:200]}")
         if len(self.violations) > 200:
-            print(f"... {len(self.violations) - 200} more violations (replay files under {OUT}/replays/{self.prop})")
+            print(f"... {len(self.violations) - 200} more violations (replay files under {OUT}/replays/{self.prop}/{self.tier})")
         cov = self.cov
         cov["known_findings_matched"] = len(self.known_hits)
         # maintenance aid (not evidence): which listed findings were met by this run, for pruning lists after a fix
